@@ -89,7 +89,8 @@ def render_bld(sysdef):
     vols.update(sysdef.get("volumes", {}))
     used = {rn for name in sysdef["types"] for rn, _ in get_typedef(sysdef, name)["res"]}
     out = list(sysdef.get("bld_pre", []))
-    out += ["[ volumes ]"] + [f"{k} {v}" for k, v in vols.items() if k in used]
+    if not sysdef.get("no_volumes"):
+        out += ["[ volumes ]"] + [f"{k} {v}" for k, v in vols.items() if k in used]
     out += sysdef.get("bld_extra", [])
     return "\n".join(out) + "\n"
 
